@@ -25,6 +25,10 @@ structure POK {N : NumOps} (Q : QRel) (cx : Cx) (call : CallFn N) (ρ : ExtOracl
   cf : cx.CF N ρ k call
   call : CallOK Q cx call
   flat : OracleFlat ρ
+  /-- the closure-call handlers of the levels up to `k` respect the relation too: what a leaf needs that unfolds a
+  call of its own known closures (`cx.CF` ties `call` to `callClosure ρ k`) and then runs RELATED code at a lower
+  level through the fundamental lemma (the bundle's accessor against the reference `require`) -/
+  lower : ∀ m, m ≤ k → CallOK Q cx (callClosure ρ m)
 
 /-- evaluated targets: related, and storable (a variable target is not dead) -/
 def ATarget {N : NumOps} (D : List DName) : ARel N (Target N) := fun β t t' => TgRel β t t' ∧ TargetOK D t
